@@ -43,6 +43,10 @@ def run(chk):
     h = symtree_check.replay_simulated(chk, cfg, CLAUSES, num, depth, chk.seed, batches=1 if not thorough else 8)
     for k, v in h.items():
       hits[k] = hits.get(k, 0) + v
+  h = symtree_check.replay_transitions(chk, 'C09_states.cfg', 'C09_step.cfg', CLAUSES,
+                                       max_states=8 if not thorough else 100, seed=chk.seed)
+  for kk, v in h.items():
+    hits[kk] = hits.get(kk, 0) + v
   chk.notes['action_outcome_hits'] = dict(sorted(hits.items()))
   for need in NEED:
     chk.require(hits.get(need, 0) > 0, f'vacuous: no replayed step {need}')
